@@ -106,13 +106,13 @@ func (fc *FnCtx) hasTName(T types.Type) string {
 		for _, X := range fc.e.errorTypes() {
 			tag := num(int64(fc.e.tagOf(X)))
 			if types.Identical(X, T) {
-				fc.vc.assert(fmt.Sprintf("(forall ((v Int)) (%s %s v))", n, tag))
-				fc.vc.assert(fmt.Sprintf("(forall ((v Int)) (= (%s %s v) v))", f, tag))
+				fc.vc.assertGlobal(fmt.Sprintf("(forall ((v Int)) (%s %s v))", n, tag))
+				fc.vc.assertGlobal(fmt.Sprintf("(forall ((v Int)) (= (%s %s v) v))", f, tag))
 			} else {
-				fc.vc.assert(fmt.Sprintf("(forall ((v Int)) (not (%s %s v)))", n, tag))
+				fc.vc.assertGlobal(fmt.Sprintf("(forall ((v Int)) (not (%s %s v)))", n, tag))
 			}
 		}
-		fc.vc.assert(fmt.Sprintf("(forall ((v Int)) (not (%s %d v)))", n, fc.e.tagOfName("*errors.errorString")))
+		fc.vc.assertGlobal(fmt.Sprintf("(forall ((v Int)) (not (%s %d v)))", n, fc.e.tagOfName("*errors.errorString")))
 	}
 	return n
 }
@@ -141,14 +141,14 @@ func (fc *FnCtx) declContains() {
 	}
 	fc.vc.declUF("errContains", []Sort{SInt, SInt, SInt, SInt}, SBool)
 	// every non-nil error contains itself
-	fc.vc.assert("(forall ((t Int) (v Int)) (=> (not (= t 0)) (errContains t v t v)))")
-	fc.vc.assert("(forall ((v Int) (xt Int) (xv Int)) (not (errContains 0 v xt xv)))")
+	fc.vc.assertGlobal("(forall ((t Int) (v Int)) (=> (not (= t 0)) (errContains t v t v)))")
+	fc.vc.assertGlobal("(forall ((v Int) (xt Int) (xv Int)) (not (errContains 0 v xt xv)))")
 	tags := []int{fc.e.tagOfName("*errors.errorString")}
 	for _, X := range fc.e.errorTypes() {
 		tags = append(tags, fc.e.tagOf(X))
 	}
 	for _, t := range tags {
-		fc.vc.assert(fmt.Sprintf("(forall ((v Int) (xt Int) (xv Int)) (= (errContains %d v xt xv) (and (= xt %d) (= xv v))))", t, t))
+		fc.vc.assertGlobal(fmt.Sprintf("(forall ((v Int) (xt Int) (xv Int)) (= (errContains %d v xt xv) (and (= xt %d) (= xv v))))", t, t))
 	}
 }
 
